@@ -112,8 +112,9 @@ Proof.
       rewrite (Z.div_mod j s) at 3 by lia. lia.
   - intros i' c' Hi' Hc' E. rewrite open_children_val in E by lia.
     unfold clip in E. rewrite Z.max_l, Z.min_l in E by lia. subst j.
-    rewrite Z.div_add_l by lia. rewrite Z.div_small by lia.
-    rewrite Z.add_comm, Z.mod_add by lia. rewrite Z.mod_small by lia. lia.
+    assert (E1 : ((i' - pad) * s + c') / s = i' - pad) by (rewrite Z.div_add_l, Z.div_small; lia).
+    assert (E2 : ((i' - pad) * s + c') mod s = c') by (rewrite Z.add_comm, Z.mod_add, Z.mod_small; lia).
+    rewrite E1, E2. lia.
 Qed.
 
 Lemma partition_reg sh s j :
@@ -127,6 +128,102 @@ Proof.
   - split; [lia | split; [apply Z.mod_pos_bound; lia|]].
     rewrite children_val, parse_id by lia. rewrite (Z.div_mod j s) at 3 by lia. lia.
   - intros i' c' Hi' Hc' E. rewrite children_val, parse_id in E by lia. subst j.
-    rewrite Z.div_add_l by lia. rewrite Z.div_small by lia.
-    rewrite Z.add_comm, Z.mod_add by lia. rewrite Z.mod_small by lia. lia.
+    assert (E1 : (i' * s + c') / s = i') by (rewrite Z.div_add_l, Z.div_small; lia).
+    assert (E2 : (i' * s + c') mod s = c') by (rewrite Z.add_comm, Z.mod_add, Z.mod_small; lia).
+    rewrite E1, E2. lia.
+Qed.
+
+(* ------------------------------------------------------------------ neighbourhood, one axis *)
+Lemma nbr_val sh w i c :
+  gen_neighborhood i sh w c = (gen_parse_index i sh + (c - w / 2)) mod sh.
+Proof. reflexivity. Qed.
+
+Lemma nbr_range sh w i c : 0 < sh -> 0 <= gen_neighborhood i sh w c < sh.
+Proof. intros H. rewrite nbr_val. apply Z.mod_pos_bound; lia. Qed.
+
+(* the window is the wrapped window: congruent to i + (c - w/2) modulo the shape *)
+Lemma nbr_congruent sh w i c :
+  0 < sh -> 0 <= i < sh -> (gen_neighborhood i sh w c - (i + (c - w / 2))) mod sh = 0.
+Proof.
+  intros Hsh Hi. rewrite nbr_val, parse_id by lia.
+  rewrite Zminus_mod, Zmod_mod, <- Zminus_mod. rewrite Z.sub_diag. apply Z.mod_0_l. lia.
+Qed.
+
+Lemma nbr_nowrap sh w i c :
+  0 <= i < sh -> 0 <= i + (c - w / 2) < sh -> gen_neighborhood i sh w c = i + (c - w / 2).
+Proof. intros Hi H. rewrite nbr_val, parse_id by lia. apply Z.mod_small; lia. Qed.
+
+Lemma nbr_centre sh w i : 0 <= i < sh -> gen_neighborhood i sh w (w / 2) = i.
+Proof. intros Hi. rewrite nbr_nowrap; lia. Qed.
+
+(* OpenGridAtLevel.neighborhood clips AFTER the modulo of the base class: the clip is the identity *)
+Lemma open_nbr_is_wrapped sh w i c :
+  0 < sh -> gen_open_neighborhood i sh w c = gen_neighborhood i sh w c.
+Proof.
+  intros H. unfold gen_open_neighborhood. pose proof (nbr_range sh w i c H). unfold clip. lia.
+Qed.
+
+(* refined voxels of an open level whose padding covers the half window get the plain window *)
+Lemma open_nbr_refined sh pad w i c :
+  0 <= w -> 0 <= c < w -> w / 2 <= pad -> w - 1 - w / 2 <= pad -> pad <= i < sh - pad ->
+  gen_open_neighborhood i sh w c = i + (c - w / 2) /\ 0 <= i + (c - w / 2) < sh.
+Proof.
+  intros Hw Hc H1 H2 Hi. rewrite open_nbr_is_wrapped by lia.
+  assert (0 <= i + (c - w / 2) < sh) by lia. split; [apply nbr_nowrap; lia | assumption].
+Qed.
+
+(* ------------------------------------------------------------------ level recursion *)
+Lemma open_at_step_val shp shifts si pd :
+  gen_open_at_step shp shifts si pd = (si * (shp - 2 * pd), si * (shifts + pd)).
+Proof. reflexivity. Qed.
+
+(* the padded extent shape + 2*shifts scales exactly by the split *)
+Lemma open_at_step_extent shp shifts si pd :
+  let st := gen_open_at_step shp shifts si pd in
+  fst st + 2 * snd st = si * (shp + 2 * shifts).
+Proof. cbv [gen_open_at_step fst snd]. lia. Qed.
+
+Lemma firstn_S_nth {A} (l : list A) (n : nat) (d : A) :
+  (n < length l)%nat -> firstn (S n) l = firstn n l ++ [nth n l d].
+Proof.
+  revert n. induction l as [|x l IH]; intros [|n] H; simpl in *; try lia; auto.
+  f_equal. apply IH. lia.
+Qed.
+
+Lemma combine_snoc {A B} (l1 : list A) (l2 : list B) a b :
+  length l1 = length l2 -> combine (l1 ++ [a]) (l2 ++ [b]) = combine l1 l2 ++ [(a, b)].
+Proof.
+  revert l2. induction l1 as [|x l1 IH]; intros [|y l2] H; simpl in *; try lia; auto.
+  f_equal. apply IH. lia.
+Qed.
+
+(* OpenGrid.at(level+1) is one gen_open_at_step (per axis) applied to OpenGrid.at(level) *)
+Lemma open_state_S shape0 splits padding l :
+  (l < length splits)%nat -> (l < length padding)%nat ->
+  open_state shape0 splits padding (S l) =
+  open_step (open_state shape0 splits padding l) (nth l splits []) (nth l padding []).
+Proof.
+  intros H1 H2. unfold open_state.
+  rewrite (firstn_S_nth splits l []), (firstn_S_nth padding l []) by assumption.
+  rewrite combine_snoc by (rewrite !firstn_length; lia).
+  rewrite fold_left_app. reflexivity.
+Qed.
+
+Lemma colprods_snoc d rows r : colprods d (rows ++ [r]) = map2 Z.mul (colprods d rows) r.
+Proof. unfold colprods. rewrite fold_left_app. reflexivity. Qed.
+
+Lemma map2_mul_assoc (a b c : list Z) :
+  map2 Z.mul a (map2 Z.mul b c) = map2 Z.mul (map2 Z.mul a b) c.
+Proof.
+  revert b c. induction a as [|x a IH]; intros [|y b] [|z c]; simpl; auto.
+  f_equal; [lia | apply IH].
+Qed.
+
+(* Grid.at(level+1).shape = Grid.at(level).shape * splits[level] *)
+Lemma reg_shape_S shape0 splits l :
+  (l < length splits)%nat ->
+  reg_shape shape0 splits (S l) = map2 Z.mul (reg_shape shape0 splits l) (nth l splits []).
+Proof.
+  intros H. unfold reg_shape. rewrite (firstn_S_nth splits l []) by assumption.
+  rewrite colprods_snoc. apply map2_mul_assoc.
 Qed.
